@@ -720,11 +720,111 @@ func enumValid(op string, emit func(string)) {
 	}
 }
 
+// ---------------------------------------------------------------- long histories
+
+// bulk appends N:<topics>:<k> (one message without an ID put k times in a row) and updates the bookkeeping.
+func (s *rgState) bulk(topics string, k int) {
+	ops := s.ops
+	for j := 0; j < k; j++ {
+		s.put(topics, "~")
+	}
+	s.ops = append(ops, "N:"+topics+":"+strconv.Itoa(k))
+}
+
+// longTotals: how many automatic IDs a long history issues — just past the powers of two a table, a ring or a
+// counter of the implementation could be sized by.
+func longTotal(rng *rand.Rand, thorough bool) int {
+	c := []int{257, 1025, 2049, 2049, 4097, 4097, 8193}
+	if thorough {
+		c = append(c, 16385, 32769, 65537, 65537)
+	}
+	return c[rng.Intn(len(c))] + rng.Intn(40)
+}
+
+// genLongFinite: a FiniteReplayer through thousands of Puts of one message, replays aimed at the end.
+func genLongFinite(rng *rand.Rand, thorough bool) string {
+	n := 2 + rng.Intn(7)
+	auto := rng.Intn(12) != 0
+	s := &rgState{n: n, auto: auto}
+	total := longTotal(rng, thorough)
+	for s.accepted < total && len(s.ops) < 40 {
+		switch rng.Intn(6) {
+		case 0:
+			s.randomPut(rng)
+		case 1:
+			s.randomReplay(rng, 30)
+		default:
+			left := total - s.accepted
+			k := left
+			if rng.Intn(3) != 0 {
+				k = 1 + rng.Intn(left)
+			}
+			s.bulk(rgPickTopics(rng, 2, 20), k)
+			if !auto {
+				total = 0 // every one of them was rejected
+			}
+		}
+	}
+	for k := 2 + rng.Intn(3); k > 0; k-- {
+		s.randomReplay(rng, 25)
+		if rng.Intn(3) == 0 {
+			s.randomPut(rng)
+		}
+	}
+	return fmt.Sprintf("%d %s %s", n, b01(auto), s.opsString())
+}
+
+// genLongValid: the same through a ValidReplayer; the entries expire in between so that the buffer stays small
+// (the model's queue operations are linear in its length).
+func genLongValid(rng *rand.Rand, thorough bool) string {
+	ttl := pick(rng, int64(2), 10, 1000)
+	gci := pick(rng, int64(0), 1, ttl/2, ttl)
+	s := &rgState{valid: true, auto: true, ttl: ttl, gci: gci}
+	total := longTotal(rng, thorough)
+	for s.accepted < total {
+		k := 100 + rng.Intn(500)
+		if k > total-s.accepted {
+			k = total - s.accepted
+		}
+		s.bulk(rgPickTopics(rng, 0, 20), k)
+		switch rng.Intn(8) {
+		case 0:
+			s.randomReplay(rng, 30)
+		case 1:
+			s.randomPut(rng)
+		}
+		if s.accepted < total || rng.Intn(2) == 0 {
+			s.tick(pick(rng, ttl, ttl, ttl+1, ttl-1))
+			if gci == 0 || rng.Intn(3) == 0 {
+				s.gc()
+			}
+		}
+	}
+	for k := 2 + rng.Intn(3); k > 0; k-- {
+		s.randomReplay(rng, 25)
+		if rng.Intn(3) == 0 {
+			s.goodPut(rng)
+		}
+	}
+	return fmt.Sprintf("%d %d 1 %s", ttl, gci, s.opsString())
+}
+
+// how many long histories a generator call emits before its n random cases
+func longCount(thorough bool) int {
+	if thorough {
+		return 8
+	}
+	return 3
+}
+
 // ---------------------------------------------------------------- generators
 
 func genC08(rng *rand.Rand, n int, thorough bool, emit func(string)) {
 	if thorough {
 		enumFinite("FINITE", emit)
+	}
+	for i := 0; i < longCount(thorough); i++ {
+		emit("FINITE " + genLongFinite(rng, thorough))
 	}
 	for i := 0; i < n; i++ {
 		emit("FINITE " + genFiniteHistory(rng, thorough, -1, false))
@@ -735,6 +835,9 @@ func genC09(rng *rand.Rand, n int, thorough bool, emit func(string)) {
 	if thorough {
 		enumValid("VALID", emit)
 	}
+	for i := 0; i < longCount(thorough); i++ {
+		emit("VALID " + genLongValid(rng, thorough))
+	}
 	for i := 0; i < n; i++ {
 		emit("VALID " + genValidHistory(rng, thorough, -1, false))
 	}
@@ -744,6 +847,9 @@ func genC18(rng *rand.Rand, n int, thorough bool, emit func(string)) {
 	if thorough {
 		enumFinite("FINITES", emit)
 		enumValid("VALIDS", emit)
+	}
+	for i := 0; i < longCount(thorough); i++ {
+		emit("FINITES " + genLongFinite(rng, thorough)) // (a ValidReplayer's slot report would be as long as its buffer)
 	}
 	for i := 0; i < n; i++ {
 		fin := thorough && rng.Intn(100) < 5
@@ -763,7 +869,20 @@ func genC18(rng *rand.Rand, n int, thorough bool, emit func(string)) {
 	}
 }
 
+// genC19L: only the long histories — "one Message can be published any number of times and every publication gets
+// its own ID" (C19) for numbers of publications past anything a short history reaches
+func genC19L(rng *rand.Rand, n int, thorough bool, emit func(string)) {
+	for i := 0; i < n; i++ {
+		if i%2 == 0 {
+			emit("FINITE " + genLongFinite(rng, thorough))
+		} else {
+			emit("VALID " + genLongValid(rng, thorough))
+		}
+	}
+}
+
 func init() {
+	generators["C19L"] = genC19L
 	generators["C08"] = genC08
 	generators["C09"] = genC09
 	generators["C18"] = genC18
